@@ -463,6 +463,10 @@ def setDb (db : BibData) (pfx : List Interp.Report) (s : St) : St := { s with db
 @[simp] theorem setDb_printed (db : BibData) (pfx : List Interp.Report) (s : St) : (setDb db pfx s).printed = s.printed := rfl
 @[simp] theorem frameOf_setDb (db : BibData) (pfx : List Interp.Report) (s : St) (k : Str) : frameOf (setDb db pfx s) k = frameOf s k := rfl
 
+theorem warn_setDb (db : BibData) (pfx : List Interp.Report) (s : St) (m : Str) :
+    warn (setDb db pfx s) m = setDb db pfx (warn s m) := by
+  simp only [setDb, warn, List.append_assoc]
+
 /-- the two databases show the same thing for every key of `K`: an entry of the same type, the
 same value for every field name (own or inherited along the `crossref` chain), the same
 `crossref` value -/
@@ -531,7 +535,8 @@ macro_rules
     `(tactic| (have hl := $l
                rcases hl with ⟨_, h1, h2⟩ | ⟨$v:ident, $s':ident, h1, h2, $g':ident⟩
                · simp only [h1, h2]; exact rfl
-               simp only [h1, h2]))
+               simp only [h1, h2]
+               clear h1 h2))
 
 /-- one pop of whatever kind the goal shows; `g'` names the `Good` fact of the new state -/
 syntax "auto_pop " term:max term:max " with " ident : tactic
@@ -551,66 +556,38 @@ macro_rules
          · simp only [h1, h2]; exact rfl
          simp only [h1, h2]))
 
-theorem sim_simple (b : Builtin) (fuel : Nat) (s : St) (g : Good K db₁ s)
-    (hb : b ≠ .callType ∧ b ≠ .if_ ∧ b ≠ .while_ ∧ b ≠ .type_ ∧ b ≠ .preamble ∧
-      b ≠ .addPeriod ∧ b ≠ .chrToInt ∧ b ≠ .intToStr ∧ b ≠ .missing ∧ b ≠ .top ∧ b ≠ .formatName ∧ b ≠ .warning) :
+/-- closes a leaf: the same error, or states that differ as `setDb` says (reports: associativity) -/
+syntax "sim_leaf " ident : tactic
+macro_rules
+  | `(tactic| sim_leaf $g) =>
+    `(tactic| first
+      | exact rfl
+      | exact ⟨⟨($g).1, ($g).2, ($g).3⟩, by simp only [setDb, warn, push, setEntryVar, frameOf, List.append_assoc]⟩)
+
+def isPlain : Builtin → Bool
+  | .callType | .if_ | .while_ | .type_ | .preamble => false
+  | _ => true
+
+/-- every built-in that neither looks at the database nor executes anything: pops, then a
+computation on the popped values.  Two shapes of code are tried for each built-in: pops followed
+by matches on the popped values; one pop whose result is matched together with the value. -/
+theorem sim_simple (b : Builtin) (fuel : Nat) (s : St) (g : Good K db₁ s) (hb : isPlain b = true) :
     SimR K db₁ db₂ pfx (runBuiltin (fuel + 1) b s) (runBuiltin (fuel + 1) b (setDb db₂ pfx s)) := by
   cases b
-  case callType | if_ | while_ | type_ | preamble | addPeriod | chrToInt | intToStr | missing | top | formatName | warning =>
-    simp at hb
+  case callType | if_ | while_ | type_ | preamble => cases hb
   all_goals simp only [runBuiltin]
-  all_goals try (auto_pop db₂ pfx with g1; try (auto_pop db₂ pfx with g2; try (auto_pop db₂ pfx with g3)))
-  all_goals try simp only [setDb_stack, setDb_vars, setDb_cur, setDb_buffer, setDb_lines, setDb_printed]
-  all_goals repeat' split
   all_goals first
-    | exact rfl
-    | exact ⟨⟨g3.1, g3.2, g3.3⟩, rfl⟩
-    | exact ⟨⟨g2.1, g2.2, g2.3⟩, rfl⟩
-    | exact ⟨⟨g1.1, g1.2, g1.3⟩, rfl⟩
-    | exact ⟨⟨g.1, g.2, g.3⟩, rfl⟩
-
-/-- the two built-ins that report (`warning$`, `format.name$`): the reports grow at the end -/
-theorem sim_warncase (b : Builtin) (fuel : Nat) (s : St) (g : Good K db₁ s)
-    (hb : b = .formatName ∨ b = .warning) :
-    SimR K db₁ db₂ pfx (runBuiltin (fuel + 1) b s) (runBuiltin (fuel + 1) b (setDb db₂ pfx s)) := by
-  rcases hb with rfl | rfl
-  · simp only [runBuiltin]
-    pop_step popStr_ok s g db₂ pfx with fmt s1 g1
-    pop_step popInt_ok s1 g1 db₂ pfx with n s2 g2
-    pop_step popStr_ok s2 g2 db₂ pfx with names s3 g3
-    split
-    · exact ⟨⟨g3.1, g3.2, g3.3⟩, by simp only [setDb, warn, push, List.append_assoc]⟩
-    · split
-      · exact rfl
-      · split
-        · exact rfl
-        · split
-          · exact ⟨⟨g3.1, g3.2, g3.3⟩, by simp only [setDb, push, List.append_assoc]⟩
-          · exact ⟨⟨g3.1, g3.2, g3.3⟩, rfl⟩
-  · simp only [runBuiltin]
-    pop_step popStr_ok s g db₂ pfx with msg s1 g1
-    exact ⟨⟨g1.1, g1.2, g1.3⟩, by simp only [setDb, warn, List.append_assoc]⟩
-
-
-theorem sim_valcase (b : Builtin) (fuel : Nat) (s : St) (g : Good K db₁ s)
-    (hb : b = .addPeriod ∨ b = .chrToInt ∨ b = .intToStr ∨ b = .missing ∨ b = .top) :
-    SimR K db₁ db₂ pfx (runBuiltin (fuel + 1) b s) (runBuiltin (fuel + 1) b (setDb db₂ pfx s)) := by
-  rcases hb with rfl | rfl | rfl | rfl | rfl
-  · simp only [runBuiltin]
-    pop_step pop_ok s g db₂ pfx with v s1 g1
-    cases v <;> first | exact rfl | exact ⟨⟨g1.1, g1.2, g1.3⟩, rfl⟩
-  · simp only [runBuiltin]
-    pop_step popStr_ok s g db₂ pfx with v s1 g1
-    rcases v with _ | ⟨c, _ | ⟨c', r⟩⟩ <;> first | exact rfl | exact ⟨⟨g1.1, g1.2, g1.3⟩, rfl⟩
-  · simp only [runBuiltin]
-    pop_step pop_ok s g db₂ pfx with v s1 g1
-    cases v <;> first | exact rfl | exact ⟨⟨g1.1, g1.2, g1.3⟩, rfl⟩
-  · simp only [runBuiltin]
-    pop_step pop_ok s g db₂ pfx with v s1 g1
-    cases v <;> first | exact rfl | exact ⟨⟨g1.1, g1.2, g1.3⟩, rfl⟩
-  · simp only [runBuiltin]
-    pop_step pop_ok s g db₂ pfx with v s1 g1
-    cases v <;> first | exact rfl | exact ⟨⟨g1.1, g1.2, g1.3⟩, rfl⟩
+    | (try (auto_pop db₂ pfx with g1; try (auto_pop db₂ pfx with g2; try (auto_pop db₂ pfx with g3)))
+       try simp only [setDb_stack, setDb_vars, setDb_cur, setDb_buffer, setDb_lines, setDb_printed]
+       repeat' split
+       all_goals first | sim_leaf g3 | sim_leaf g2 | sim_leaf g1 | sim_leaf g
+       done)
+    | (pop_step pop_ok s g db₂ pfx with v s1 g1
+       cases v
+       case int n => first | sim_leaf g1 | (rcases n with (_ | m) | m <;> sim_leaf g1)
+       case str x => first | sim_leaf g1 | (rcases x with _ | ⟨c, _ | ⟨c', r⟩⟩ <;> sim_leaf g1)
+       all_goals sim_leaf g1
+       done)
 
 /-- the current entry: present in both databases with the same view, or the same error -/
 theorem curEntry_cases (hA : Agree K db₁ db₂) (s : St) (g : Good K db₁ s) :
@@ -736,13 +713,8 @@ theorem frame_all (hA : Agree K db₁ db₂) : ∀ fuel : Nat,
         · exact ihWhile p f s3 g3
     · -- runBuiltin
       intro b s g
-      by_cases hb : b ≠ .callType ∧ b ≠ .if_ ∧ b ≠ .while_ ∧ b ≠ .type_ ∧ b ≠ .preamble ∧
-          b ≠ .addPeriod ∧ b ≠ .chrToInt ∧ b ≠ .intToStr ∧ b ≠ .missing ∧ b ≠ .top ∧ b ≠ .formatName ∧ b ≠ .warning
+      by_cases hb : isPlain b = true
       · exact sim_simple b n s g hb
-      by_cases hb3 : b = .formatName ∨ b = .warning
-      · exact sim_warncase b n s g hb3
-      by_cases hb2 : b = .addPeriod ∨ b = .chrToInt ∨ b = .intToStr ∨ b = .missing ∨ b = .top
-      · exact sim_valcase b n s g hb2
       cases b
       case callType =>
         simp only [runBuiltin]
@@ -752,12 +724,7 @@ theorem frame_all (hA : Agree K db₁ db₂) : ∀ fuel : Nat,
           cases s.vars.getItem e₁.type with
           | some o => exact ihObj o s g
           | none =>
-            simp only []
-            show SimR K db₁ db₂
-              (match (warn s _).vars.getItem "default.type".toList with
-                | some o => execObj n o (warn s _) | none => .ok (warn s _))
-              (match (setDb db₂ pfx (warn s _)).vars.getItem "default.type".toList with
-                | some o => execObj n o (setDb db₂ pfx (warn s _)) | none => .ok (setDb db₂ pfx (warn s _)))
+            simp only [warn_setDb]
             have gw : Good K db₁ (warn s ("entry type for \"".toList ++ k ++ "\" isn't style-file defined".toList)) :=
               ⟨g.1, g.2, g.3⟩
             simp only [setDb_vars]
@@ -787,7 +754,7 @@ theorem frame_all (hA : Agree K db₁ db₂) : ∀ fuel : Nat,
       case preamble =>
         simp only [runBuiltin, setDb_db, g.hdb, setDb_preamble]
         exact ⟨⟨g.1, g.2, g.3⟩, rfl⟩
-      all_goals simp at hb hb2 hb3
+      all_goals exact absurd rfl hb
 
 
 /-! ### lifting the frame property to `iterate`, commands and programs -/
@@ -822,7 +789,7 @@ theorem iterate_sim (hA : Agree K db₁ db₂) (fuel : Nat) (f : VarObj) (keys :
       rw [h2]; rfl
     have gk : Good K db₁ { s with cur := some k } :=
       ⟨g.1, fun k' hk' => by cases hk'; exact hk k (List.mem_cons_self ..), g.3⟩
-    have := (frame_all hA fuel).2.1 f _ gk
+    have := (frame_all (pfx := pfx) hA fuel).2.1 f _ gk
     rcases this.cases with ⟨e, h1, h2⟩ | ⟨s1, h1, h2, g1⟩
     · rw [iterate_cons_error fuel f k ks s db₁ e g.hdb c1 h1,
         iterate_cons_error fuel f k ks (setDb db₂ pfx s) db₂ e rfl c2 h2]
@@ -850,7 +817,7 @@ theorem declare_sim (mk : Str → VarObj) (ts : List BTok) (s : St) (g : Good K 
     | error e => exact rfl
     | ok n =>
       simp only []
-      rcases (addVariable_sim (db₂ := db₂) n (mk n) s g).cases with ⟨e, h1, h2⟩ | ⟨s1, h1, h2, g1⟩ <;>
+      rcases (addVariable_sim (db₂ := db₂) (pfx := pfx) n (mk n) s g).cases with ⟨e, h1, h2⟩ | ⟨s1, h1, h2, g1⟩ <;>
         simp only [h1, h2]
       · exact rfl
       · exact ih s1 g1
@@ -916,13 +883,13 @@ theorem runCommand_sim (hA : Agree K db₁ db₂) (fuel : Nat) (inp₁ inp₂ : 
   · -- ENTRY
     split
     · rename_i fields ints strings _
-      rcases (declare_sim (db₂ := db₂) (fun n => VarObj.field n) fields s g).cases with
+      rcases (declare_sim (db₂ := db₂) (pfx := pfx) (fun n => VarObj.field n) fields s g).cases with
         ⟨e, h1, h2⟩ | ⟨s1, h1, h2, g1⟩ <;> simp only [h1, h2]
       · exact rfl
-      rcases (addVariable_sim (db₂ := db₂) "crossref".toList .crossref s1 g1).cases with
+      rcases (addVariable_sim (db₂ := db₂) (pfx := pfx) "crossref".toList .crossref s1 g1).cases with
         ⟨e, h1, h2⟩ | ⟨s2, h1, h2, g2⟩ <;> simp only [h1, h2]
       · exact rfl
-      rcases (declare_sim (db₂ := db₂) (fun n => VarObj.eint n) ints s2 g2).cases with
+      rcases (declare_sim (db₂ := db₂) (pfx := pfx) (fun n => VarObj.eint n) ints s2 g2).cases with
         ⟨e, h1, h2⟩ | ⟨s3, h1, h2, g3⟩ <;> simp only [h1, h2]
       · exact rfl
       exact declare_sim _ _ s3 g3
@@ -930,7 +897,7 @@ theorem runCommand_sim (hA : Agree K db₁ db₂) (fuel : Nat) (inp₁ inp₂ : 
   split
   · -- EXECUTE
     split
-    · exact (frame_all hA fuel).2.2.1 _ s g
+    · exact (frame_all (pfx := pfx) hA fuel).2.2.1 _ s g
     · exact rfl
   split
   · -- FUNCTION
@@ -965,7 +932,7 @@ theorem runProgram_sim (hA : Agree K db₁ db₂) (fuel : Nat) (inp₁ inp₂ : 
   | nil => exact ⟨g, rfl⟩
   | cons c cs ih =>
     simp only [runProgram]
-    rcases (runCommand_sim hA fuel inp₁ inp₂ c (hp c (List.mem_cons_self ..)) s g).cases with
+    rcases (runCommand_sim (pfx := pfx) hA fuel inp₁ inp₂ c (hp c (List.mem_cons_self ..)) s g).cases with
       ⟨e, h1, h2⟩ | ⟨s1, h1, h2, g1⟩ <;> simp only [h1, h2]
     · exact rfl
     · exact ih (fun c hc => hp c (List.mem_cons_of_mem _ hc)) s1 g1
@@ -1047,7 +1014,12 @@ theorem cur_simple (b : Builtin) (fuel : Nat) (s : St)
   all_goals simp only [runBuiltin]
   all_goals repeat cur_pop
   all_goals repeat' split
-  all_goals first | exact ⟨rfl, rfl, rfl⟩ | trivial | (rename_i heq; cases heq; exact ⟨rfl, rfl, rfl⟩)
+  all_goals first
+    | exact ⟨rfl, rfl, rfl⟩
+    | trivial
+    | (have hq := ‹(Except.ok _ : Except IErr (Val × St)) = Except.ok _›
+       cases hq
+       exact ⟨rfl, rfl, rfl⟩)
 
 /-- `execVal`, `execObj`, `execTok`, `execBody`, `whileLoop`, `runBuiltin` leave `cur` alone -/
 theorem exec_cur : ∀ fuel : Nat,
@@ -1603,5 +1575,115 @@ theorem run_uncited_alt (fuel : Nat) (pre post : Bst.Program) (rd : Bst.Command)
     simp only [readFinish]
     rw [runProgram_inp fuel _
       { bibTexts := ts', citations := cits, minCrossrefs := mc, alt := some (epre ++ epost, pream) } post _ hpost]
+
+theorem Agree.left {K : List Str} {db₁ db₂ : BibData} (h : Agree K db₁ db₂) : Agree K db₁ db₁ := by
+  intro k hk
+  obtain ⟨e₁, _, h1, _⟩ := h k hk
+  exact ⟨e₁, e₁, h1, h1, rfl, fun _ => rfl, rfl⟩
+
+/-- runs from states that differ in the database and in the reports made so far: the same error,
+or final states that are one report-free state `b'` with the own database and the own earlier
+reports put in front -/
+theorem runProgram_reports {K : List Str} {db₁ db₂ : BibData} (hA : Agree K db₁ db₂) (fuel : Nat)
+    (inp₁ inp₂ : Input) (post : Bst.Program) (hpost : ∀ c ∈ post, upper c.name ≠ "READ".toList)
+    (b : St) (g : Good K db₁ b) (r₁ r₂ : List Interp.Report) :
+    (∃ e, runProgram fuel inp₁ post (setDb db₁ r₁ b) = .error e ∧
+      runProgram fuel inp₂ post (setDb db₂ r₂ b) = .error e) ∨
+    (∃ b', Good K db₁ b' ∧ runProgram fuel inp₁ post (setDb db₁ r₁ b) = .ok (setDb db₁ r₁ b') ∧
+      runProgram fuel inp₂ post (setDb db₂ r₂ b) = .ok (setDb db₂ r₂ b')) := by
+  have h1 := (runProgram_sim (pfx := r₁) hA.left fuel inp₁ inp₁ post hpost b g).cases
+  have h2 := (runProgram_sim (pfx := r₂) hA fuel inp₁ inp₂ post hpost b g).cases
+  rcases h1 with ⟨e, a1, a2⟩ | ⟨b', a1, a2, g'⟩
+  · rcases h2 with ⟨e', c1, c2⟩ | ⟨b'', c1, c2, -⟩
+    · rw [a1] at c1; cases c1
+      exact .inl ⟨e, a2, c2⟩
+    · rw [a1] at c1; cases c1
+  · rcases h2 with ⟨e', c1, c2⟩ | ⟨b'', c1, c2, -⟩
+    · rw [a1] at c1; cases c1
+    · rw [a1] at c1; cases c1
+      exact .inr ⟨b', g', a2, c2⟩
+
+theorem runProgram_reports' {K : List Str} {db₁ db₂ : BibData} (hA : Agree K db₁ db₂) (fuel : Nat)
+    (inp₁ inp₂ : Input) (post : Bst.Program) (hpost : ∀ c ∈ post, upper c.name ≠ "READ".toList)
+    (s₁ : St) (g : Good K db₁ s₁) (r₂ : List Interp.Report) :
+    (∃ e, runProgram fuel inp₁ post s₁ = .error e ∧
+      runProgram fuel inp₂ post { s₁ with db := some db₂, reports := r₂ } = .error e) ∨
+    (∃ t₁ R, runProgram fuel inp₁ post s₁ = .ok t₁ ∧ t₁.reports = s₁.reports ++ R ∧
+      runProgram fuel inp₂ post { s₁ with db := some db₂, reports := r₂ } =
+        .ok { t₁ with db := some db₂, reports := r₂ ++ R }) := by
+  have e1 : setDb db₁ s₁.reports { s₁ with reports := [] } = s₁ := by
+    obtain ⟨hdb, -, -⟩ := g
+    cases s₁
+    simp only [setDb, List.append_nil] at hdb ⊢
+    rw [hdb]
+  have e2 : setDb db₂ r₂ { s₁ with reports := [] } = { s₁ with db := some db₂, reports := r₂ } := by
+    simp only [setDb, List.append_nil]
+  have gb : Good K db₁ { s₁ with reports := [] } := ⟨g.1, g.2, g.3⟩
+  rcases runProgram_reports hA fuel inp₁ inp₂ post hpost _ gb s₁.reports r₂ with ⟨e, h1, h2⟩ | ⟨b', -, h1, h2⟩
+  · rw [e1] at h1; rw [e2] at h2
+    exact .inl ⟨e, h1, h2⟩
+  · rw [e1] at h1; rw [e2] at h2
+    exact .inr ⟨_, b'.reports, h1, rfl, by rw [h2]; rfl⟩
+
+
+/-- whole runs whose `READ` steps leave states that differ in the database and in the reports -/
+theorem run_frame_reports (fuel : Nat) (inp₁ inp₂ : Input) (pre post : Bst.Program) (rd : Bst.Command)
+    (hcit : inp₁.citations = inp₂.citations)
+    (hpre : ∀ c ∈ pre, upper c.name ≠ "READ".toList) (hrd : upper rd.name = "READ".toList)
+    (hpost : ∀ c ∈ post, upper c.name ≠ "READ".toList)
+    (hread : ∀ s, runProgram fuel inp₁ pre { vars := initVars, citations := inp₁.citations } = .ok s →
+      ∃ s₁ db₁ db₂ r₂, runCommand fuel inp₁ rd s = .ok s₁ ∧ s₁.db = some db₁ ∧
+        runCommand fuel inp₂ rd s = .ok { s₁ with db := some db₂, reports := r₂ } ∧
+        Agree s₁.citations db₁ db₂) :
+    (∃ e, run fuel (pre ++ rd :: post) inp₁ = .error (e, []) ∧ run fuel (pre ++ rd :: post) inp₂ = .error (e, [])) ∨
+    (∃ o₁ o₂, run fuel (pre ++ rd :: post) inp₁ = .ok o₁ ∧ run fuel (pre ++ rd :: post) inp₂ = .ok o₂ ∧
+      o₁.bbl = o₂.bbl ∧ o₁.printed = o₂.printed ∧
+      ∃ s s₁ s₂ R, runProgram fuel inp₁ pre { vars := initVars, citations := inp₁.citations } = .ok s ∧
+        runCommand fuel inp₁ rd s = .ok s₁ ∧ runCommand fuel inp₂ rd s = .ok s₂ ∧
+        o₁.reports = s₁.reports ++ R ∧ o₂.reports = s₂.reports ++ R) := by
+  have hk := runProgram_keep fuel inp₁ pre hpre { vars := initVars, citations := inp₁.citations } rfl
+  have hrun : ∀ (inp : Input), inp.citations = inp₁.citations →
+      runProgram fuel inp pre { vars := initVars, citations := inp₁.citations } =
+        runProgram fuel inp₁ pre { vars := initVars, citations := inp₁.citations } →
+      run fuel (pre ++ rd :: post) inp =
+        match runProgram fuel inp₁ pre { vars := initVars, citations := inp₁.citations } with
+        | .error e => .error (e, [])
+        | .ok s =>
+          match runCommand fuel inp rd s with
+          | .error e => .error (e, [])
+          | .ok s' =>
+            match runProgram fuel inp post s' with
+            | .error e => .error (e, [])
+            | .ok t => .ok { bbl := t.lines.flatten, reports := t.reports, printed := t.printed } := by
+    intro inp hc hpre'
+    simp only [run, hc, runProgram_append, hpre', runProgram]
+    cases runProgram fuel inp₁ pre { vars := initVars, citations := inp₁.citations } with
+    | error e => rfl
+    | ok s =>
+      simp only []
+      cases runCommand fuel inp rd s with
+      | error e => rfl
+      | ok s' =>
+        simp only []
+        cases runProgram fuel inp post s' <;> rfl
+  rw [hrun inp₁ rfl rfl, hrun inp₂ hcit.symm (runProgram_inp fuel inp₂ inp₁ pre _ hpre)]
+  cases hp : runProgram fuel inp₁ pre { vars := initVars, citations := inp₁.citations } with
+  | error e => exact .inl ⟨e, rfl, rfl⟩
+  | ok s =>
+    rw [hp] at hk
+    obtain ⟨s₁, db₁, db₂, r₂, h1, hdb, h2, hA⟩ := hread s hp
+    have hcur : s₁.cur = none := by
+      have h1' := h1
+      rw [runCommand_read fuel inp₁ rd s hrd] at h1'
+      injection h1' with h1'
+      rw [← h1']
+      exact hk.1
+    have g : Good s₁.citations db₁ s₁ :=
+      ⟨hdb, fun k hk' => (by rw [hcur] at hk'; exact nomatch hk'), fun c hc => hc⟩
+    rcases runProgram_reports' hA fuel inp₁ inp₂ post hpost s₁ g r₂ with ⟨e, h3, h4⟩ | ⟨t₁, R, h3, h4, h5⟩
+    · simp only [h1, h2, h3, h4]
+      exact .inl ⟨e, rfl, rfl⟩
+    · simp only [h1, h2, h3, h5]
+      exact .inr ⟨_, _, rfl, rfl, rfl, rfl, s, s₁, { s₁ with db := some db₂, reports := r₂ }, R, rfl, h1, h2, h4, rfl⟩
 
 end Pybtex.Engine
